@@ -124,6 +124,8 @@ class Check:
 
     def check_floors(self) -> None:
         for rid, info in self.rules.items():
+            if info["violations"] > 0:
+                continue   # the rule found its subjects and reports them
             if info["instances"] < info["floor"]:
                 raise AnalysisError(
                     "rule {} matched {} instance(s), below its floor of {} "
